@@ -122,6 +122,19 @@ def check (spec0):
                 m.near_field_iter = lambda: iter (())
             try:
                 common.guarded (lambda: m.compute_near_field (start, inc, nvec), 'compute_near_field')
+                # a second request on the same object that shares the X axis with the first (grid contract again)
+                r2 = np.random.default_rng ([int (abs (start [0]) * 1000) % 100000, nvec [0], nvec [1], nvec [2]])
+                a2 = [ax [0], draw_axis (r2, 4 if spec ['kind'] == 'near' else 100), draw_axis (r2, 3 if spec ['kind'] == 'near' else 100)]
+                if spec ['kind'] == 'near' and a2 [0][2] * a2 [1][2] * a2 [2][2] > 60:
+                    a2 [1] = (a2 [1][0], a2 [1][1], 1)
+                common.guarded (lambda: m.compute_near_field ([a [0] for a in a2], [a [1] for a in a2], [a [2] for a in a2]), 'compute_near_field')
+                mon ['near.second-request'] = 1
+                n2 = a2 [0][2] * a2 [1][2] * a2 [2][2]
+                got = np.asarray (m.near_field_coord)
+                if got.size != 3 * n2:
+                    viol.append (dict (monitor = 'near.second-request', key = 'near-point-count'
+                                      , msg = 'second request on the same object (%d x %d x %d after %d x %d x %d): %d points' % (a2 [0][2], a2 [1][2], a2 [2][2], nvec [0], nvec [1], nvec [2], got.size // 3)))
+                common.guarded (lambda: m.compute_near_field (start, inc, nvec), 'compute_near_field')
                 if spec ['kind'] == 'near':
                     mon ['near.values'] = 1
                     N = nvec [0] * nvec [1] * nvec [2]
